@@ -973,6 +973,24 @@ class BuiltinMixin:
         h = HObj(("io", "StringIO"), {"__text__": VStr(z3.StringVal(""))}, {}, "StringIO")
         return [(st, st.alloc(h))]
 
+    def m_StringIO_write(self, st, ref, args, kwargs):
+        (sv,) = args
+        h = st.deref(ref)
+        out = []
+        for s, tv in self.split_tags(st, sv):
+            if not isinstance(tv, VStr):
+                out.append(self.raised(s, "TypeError", "string argument expected"))
+                continue
+            hh = s.deref(ref)
+            old = hh.fields.get("__text__", VStr(z3.StringVal("")))
+            hh.fields["__text__"] = VStr(z3.Concat(old.t, tv.t))
+            s.log.append(("write", ref.addr, tv.t))
+            out.append((s, VInt(z3.Length(tv.t))))
+        return out
+
+    def m_StringIO_getvalue(self, st, ref, args, kwargs):
+        return [(st, st.deref(ref).fields.get("__text__", VStr(z3.StringVal(""))))]
+
     def b_collections_defaultdict(self, st, args, kwargs):
         # only used as an empty per-context table (tag_namespace["extends"])
         return [(st, st.alloc(HDict()))]
